@@ -220,7 +220,10 @@ func buildOpts(nodes []optNode, side string, log *layerLog, rl *recoverLog, rec 
 			}
 			ics := make([]connect.Interceptor, len(names))
 			for i, name := range names {
-				if name != "nil" {
+				if name == "U" {
+					// a UnaryInterceptorFunc: a layer of unary calls only, transparent on streaming ones
+					ics[i] = connect.UnaryInterceptorFunc((&namedInterceptor{name: name, log: log, side: side}).WrapUnary)
+				} else if name != "nil" {
 					ics[i] = &namedInterceptor{name: name, log: log, side: side}
 				}
 			}
